@@ -269,6 +269,36 @@ theorem unescLoop_length_le : ∀ (n : Nat) (s : Text), s.length ≤ n → ∀ (
            omega)
         | (simp; done)
 
+/-- when quotes were counted, the unescaped text contains one -/
+theorem unescLoop_quote_mem : ∀ (n : Nat) (s : Text), s.length ≤ n → ∀ (r q : Int) (oq : Bool),
+    (unescLoop s r q oq).2 ≠ 0 → '"' ∈ (unescLoop s r q oq).1 := by
+  intro n
+  induction n with
+  | zero =>
+    intro s hs r q oq
+    have : s = [] := List.eq_nil_of_length_eq_zero (by omega)
+    subst this; simp [unescLoop]
+  | succ n ih =>
+    intro s hs r q oq
+    cases s with
+    | nil => simp [unescLoop]
+    | cons ch rest =>
+      simp only [List.length_cons] at hs
+      have keep0 : ∀ r q oq, (unescLoop rest r q oq).2 + 0 ≠ 0 → '"' ∈ ch :: (unescLoop rest r q oq).1 := by
+        intro r q oq h; exact List.mem_cons_of_mem _ (ih rest (by omega) r q oq (by simpa using h))
+      unfold unescLoop
+      simp only
+      repeat' split
+      all_goals first
+        | exact keep0 _ _ _
+        | (rename_i hq; intro _; simp at hq; simp [hq]; done)
+        | (rename_i c rest'
+           simp only [List.length_cons] at hs
+           intro h
+           exact List.mem_cons_of_mem _ (ih rest' (by omega) r q false h))
+        | (intro h; simp at h; done)
+        | skip
+
 theorem unescape_length_le (s : Text) : (unescape s).1.length ≤ s.length := unescLoop_length_le s.length s (Nat.le_refl _) 0 0 false
 
 /-! ### the mutual recursion: three units of fuel per character suffice -/
@@ -364,7 +394,7 @@ theorem term_fuel (po : POps) : ∀ n,
       simp
     · refine Res.bind_ne_oof (checkQuotes_ne_oof _ _) (fun _ _ => ?_)
       apply hM
-      · exact Nat.le_trans (unescape_length_le _) (by omega)
+      · exact Nat.le_trans (trim_length_le _) (Nat.le_trans (unescape_length_le _) (by omega))
       · omega
 
 theorem parseTerm_fuel (po : POps) (s : Text) (f : Nat) (hf : 3 * s.length + 3 ≤ f) : parseTerm po f s ≠ .oof :=
